@@ -265,3 +265,168 @@ def evaluate(ctx, sec, size):
     if key not in cache:
         cache[key] = SectionEval(ctx, sec, size)
     return cache[key]
+
+
+# ------------------------------------------------------------------- png
+
+PNG_DIMS = (8, 4, 4, 20)     # width, height, planes, data bytes (< w*h)
+
+
+class PngEval:
+    """get_pngdata_from_picodata / get_picodata_from_pngdata evaluated on a
+    small image of symbolic pixels: width, height and the amount of data are
+    arguments of the two functions, so the instance is representative of the
+    loop structure while every data bit and every pixel bit is symbolic"""
+
+    def __init__(self, ctx):
+        W, H, P, N = PNG_DIMS
+        self.cx = CX.Cx(ctx.model, ctx.consts)
+        mod = 'pico8.game.formatter.p8png:'
+        self.wf = ctx.model.func(mod + 'get_pngdata_from_picodata')
+        self.rf = ctx.model.func(mod + 'get_picodata_from_pngdata')
+        self.pix = [[BV.source(('mem', 'png', (r * W + c) * P + p), 8)
+                     for c in range(W) for p in range(P)] for r in range(H)]
+        self.pico = [BV.source(('mem', 'pico', i), 8) for i in range(N)]
+        self.writer = self._run(self._writer)
+        self.reader = self._run(self._reader)
+
+    def _rows(self):
+        return [CX.Seq('bytearray', list(r)) for r in self.pix]
+
+    def _run(self, fn):
+        try:
+            paths = self.cx.explore(fn)
+            if len(paths) != 1 or paths[0][0]:
+                raise CX.CxError('control flow depends on pixel contents')
+            kind, val = paths[0][1]
+            if kind == 'raise':
+                return ('raise', val.tname, val.args_)
+            return val
+        except AnalysisError as e:
+            return e
+
+    def _writer(self):
+        W, H, P, N = PNG_DIMS
+        out = self.cx.call_function(
+            self.wf, [CX.Seq('bytearray', list(self.pico)), self._rows(),
+                      {'planes': P}], {})
+        return [self.cx.items(r) for r in self.cx.items(out)]
+
+    def _reader(self):
+        W, H, P, N = PNG_DIMS
+        out = self.cx.call_function(
+            self.rf, [W, H, self._rows(), {'planes': P}], {})
+        return self.cx.items(out)
+
+    def roundtrip_diff(self):
+        """reader applied to the writer's image gives the data back, and the
+        writer keeps the six upper bits of every sample / copies the pixels
+        past the data"""
+        W, H, P, N = PNG_DIMS
+        w = self.writer
+        if isinstance(w, tuple):
+            return 'writer {}: {}'.format(w[0], w[1:])
+        if len(w) != H or any(len(r) != W * P for r in w):
+            return 'the written image has another shape than the source'
+        cxi = self.cx
+
+        def go():
+            rows = [CX.Seq('bytearray', list(r)) for r in w]
+            return cxi.items(cxi.call_function(
+                self.rf, [W, H, rows, {'planes': P}], {}))
+        back = self._run(go)
+        if isinstance(back, AnalysisError):
+            raise back
+        if isinstance(back, tuple):
+            return 'reader {}: {}'.format(back[0], back[1:])
+        for i in range(N):
+            got = back[i] if isinstance(back[i], BV) else BV.const(back[i], 8)
+            if got != self.pico[i]:
+                return 'data byte {} comes back as {}'.format(i, _bits8(got))
+        for r in range(H):
+            for c in range(W):
+                for p in range(P):
+                    got = w[r][c * P + p]
+                    got = got if isinstance(got, BV) else BV.const(got, 8)
+                    src = self.pix[r][c * P + p]
+                    lo = 2 if r * W + c < N else 0
+                    if any(got.cell(k) != src.cell(k) for k in range(lo, 8)):
+                        return ('pixel {} plane {}: the source image bits '
+                                '{}..7 are not kept ({})'.format(
+                                    r * W + c, p, lo, _bits8(got)))
+        return None
+
+    def writer_diff(self):
+        W, H, P, N = PNG_DIMS
+        w = self.writer
+        if isinstance(w, tuple):
+            return 'writer {}: {}'.format(w[0], w[1:])
+        if len(w) != H:
+            return 'writer returns {} rows for {}'.format(len(w), H)
+        for r in range(H):
+            if len(w[r]) != W * P:
+                return 'row {} has {} samples instead of {}'.format(
+                    r, len(w[r]), W * P)
+            for c in range(W):
+                i = r * W + c
+                for p in range(P):
+                    got = w[r][c * P + p]
+                    got = got if isinstance(got, BV) else BV.const(got, 8)
+                    src = self.pix[r][c * P + p]
+                    if i < N:
+                        hi, lo = ref.PNG_BITS_OF_PLANE[p]
+                        want = BV([self.pico[i].cell(lo),
+                                   self.pico[i].cell(hi)] +
+                                  [src.cell(k) for k in range(2, 8)])
+                    else:
+                        want = src
+                    if got != want:
+                        return ('pixel {} plane {} is written as {} instead '
+                                'of {}'.format(i, p, _bits8(got),
+                                               _bits8(want)))
+        return None
+
+    def reader_diff(self):
+        W, H, P, N = PNG_DIMS
+        g = self.reader
+        if isinstance(g, tuple):
+            return 'reader {}: {}'.format(g[0], g[1:])
+        if len(g) != W * H:
+            return 'reader returns {} bytes for {} pixels'.format(
+                len(g), W * H)
+        for i in range(W * H):
+            r, c = divmod(i, W)
+            cells = [None] * 8
+            for p, (hi, lo) in ref.PNG_BITS_OF_PLANE.items():
+                src = self.pix[r][c * P + p]
+                cells[lo] = src.cell(0)
+                cells[hi] = src.cell(1)
+            want = BV(cells)
+            got = g[i] if isinstance(g[i], BV) else BV.const(g[i], 8)
+            if got != want:
+                return ('data byte {} is read as {} instead of {}'.format(
+                    i, _bits8(got), _bits8(want)))
+        return None
+
+
+def _bits8(bv):
+    out = []
+    for k in reversed(range(8)):
+        c = bv.cell(k)
+        if c is None:
+            out.append('?')
+        elif c.is_const():
+            out.append(str(c.const()))
+        elif len(c.vars) == 1 and c.table == 2:
+            src, bit = c.vars[0]
+            out.append('{}[{}].{}'.format(src[1], src[2], bit))
+        else:
+            out.append('f(..)')
+    return '<' + ' '.join(out) + '>'
+
+
+def evaluate_png(ctx):
+    cache = ctx.__dict__.setdefault('_cx_sections', {})
+    if 'png' not in cache:
+        cache['png'] = PngEval(ctx)
+    return cache['png']
